@@ -4,16 +4,22 @@ functions), executor under the virtual clock, property oracle from the harness's
 A case is `{"config": <CONFIGS name>, "layout": <layout name>, "ops": [<op line>, ...]}`.  Keys and tags are
 model numbers (indices into the layout's key / tag lists).  Op lines (see lean/Drivers/C12.lean):
 
-  set K V TTL COND TAGS | incr K BY TTL TAGS | call K F TTL | get K | exists K | delete K | delmany K..
+  set K V TTL COND TAGS | incr K BY TTL TAGS | call K F TTL [MUT] | get K | exists K | delete K | delmany K..
   delmatch P | deltags T.. | adv N
 
-`call K F TTL` calls the decorated function F of the layout with the arguments that produce key K
-(model line: `call K t:<fresh> TTL <tags the decorator attaches>`), `delmatch P` uses pattern P of the layout
-(model line: `delmatch <keys of the universe that match>`).  TTLs / advances are ticks of 1/8 s.
+`call K F TTL [MUT]` calls the decorated function F of the layout with (fresh copies of) the arguments that produce
+key K; the body applies the scripted in-place mutation MUT (see MUTATIONS; `-` / absent = none) to its mutable
+argument before it returns.  Model line: `call K t:<fresh> TTL <tags the decorator attaches>` where the tags are
+the tag templates rendered by the harness from the arguments AS THEY WERE WHEN THE CALL WAS MADE (the key and the
+tags of a decorated call are those of the call, whatever the body does to its arguments).
+`delmatch P` uses pattern P of the layout - glob patterns with `*`, wildcard-free patterns naming one key exactly,
+and patterns matching nothing (model line: `delmatch <keys of the universe that match>`).
+TTLs / advances are ticks of 1/8 s.
 """
 from __future__ import annotations
 
 import asyncio
+import copy
 import re
 import string
 
@@ -34,9 +40,14 @@ class Layout:
     """keys: list of (key string, template index, field dict); tags: list of concrete tag strings;
     registrations: list of (tag template, key template) done with cache.register_tag;
     funcs: decorated functions: (key template index, [tag templates], argument names);
-    patterns: glob patterns for delete_match (all start with a data prefix, never match '_tag:*')."""
+    patterns: patterns for delete_match (all start with a data prefix, never match '_tag:*'): the glob patterns given,
+    then (appended, so that old indices stay valid) wildcard-free patterns = exact key names, then patterns matching
+    nothing (one with, one without a wildcard).
+    Field values are strings, or lists / dicts of strings (mutable arguments of decorated functions); `render` is the
+    harness's own reading of how the documentation says they appear in keys and tags (list: items joined by ':',
+    dict: 'key:value' pairs sorted by key joined by ':')."""
 
-    def __init__(self, name, templates, fields, tags_templates, regs, funcs, patterns, extra_tags=()):
+    def __init__(self, name, templates, fields, tags_templates, regs, funcs, patterns, extra_tags=(), exact=None):
         self.name = name
         self.templates = templates
         self.keys = []  # (string, template idx, fields)
@@ -44,16 +55,24 @@ class Layout:
             names = [f for _, f, _, _ in string.Formatter().parse(tpl) if f]
             for combo in _product([fields[n] for n in names]):
                 fd = dict(zip(names, combo))
-                self.keys.append((tpl.format(**fd), ti, fd))
+                self.keys.append((fmt(tpl, fd), ti, fd))
+        if len({k for k, _, _ in self.keys}) != len(self.keys):
+            raise HarnessError(f"layout {name}: two argument combinations render to the same key")
         self.regs = regs
         self.funcs = funcs
-        self.patterns = patterns
+        self.nglob = len(patterns)
+        exact_keys = list(range(len(self.keys))) if exact is None else list(exact)
+        self.patterns = list(patterns) + [self.keys[i][0] for i in exact_keys] + ["zz:*", "zz:none"]
+        self.exact_of = {ki: self.nglob + j for j, ki in enumerate(exact_keys)}
+        self.nomatch = [len(self.patterns) - 2, len(self.patterns) - 1]
+        if any(self.match(pi) for pi in self.nomatch) or any(self.match(self.exact_of[ki]) != [ki] for ki in exact_keys):
+            raise HarnessError(f"layout {name}: exact / no-match patterns do not match what they are meant to")
         # every concrete tag any registration / decorator can produce for a universe key, plus unregistered extras
         tagset = []
         for _, ti, fd in self.keys:
             for tt in tags_templates:
                 try:
-                    t = tt.format(**fd)
+                    t = fmt(tt, fd)
                 except KeyError:
                     continue
                 if t not in tagset:
@@ -73,7 +92,7 @@ class Layout:
             if key_tpl != self.templates[ti] and key_tpl != self.keys[ki][0]:
                 continue
             try:
-                t = tag_tpl.format(**fd)
+                t = fmt(tag_tpl, fd)
             except KeyError:
                 t = _format_missing(tag_tpl, fd)
             j = self.tags.index(t)
@@ -91,7 +110,10 @@ class Layout:
     def func_tags(self, fi: int, ki: int) -> list[int]:
         _, tag_tpls, _ = self.funcs[fi]
         fd = self.keys[ki][2]
-        return [self.tags.index(tt.format(**fd)) for tt in tag_tpls]
+        return [self.tags.index(fmt(tt, fd)) for tt in tag_tpls]
+
+    def wild_patterns_for(self, ki: int) -> list[int]:
+        return [pi for pi in range(self.nglob) if ki in self.match(pi)]
 
     def funcs_for_key(self, ki: int) -> list[int]:
         return [fi for fi, (kti, _, _) in enumerate(self.funcs) if kti == self.keys[ki][1]]
@@ -116,11 +138,62 @@ def _product(lists):
     return out
 
 
+def render(v) -> str:
+    """how an argument value appears in a key / tag (README "Template Keys": strings as they are, lists and tuples
+    as their items joined by ':', dicts as 'key:value' pairs sorted by key joined by ':')"""
+    if isinstance(v, str):
+        return v
+    if isinstance(v, (list, tuple)):
+        return ":".join(render(x) for x in v)
+    if isinstance(v, dict):
+        return ":".join(k + ":" + render(x) for k, x in sorted(v.items()))
+    raise HarnessError(f"no rendering for {type(v).__name__}")
+
+
+def fmt(tpl: str, fd: dict) -> str:
+    return tpl.format(**{k: render(v) for k, v in fd.items()})
+
+
 def _format_missing(tpl, fd):
     class D(dict):
         def __missing__(self, k):
             return ""
-    return string.Formatter().vformat(tpl, (), D(fd))
+    return string.Formatter().vformat(tpl, (), D({k: render(v) for k, v in fd.items()}))
+
+
+# scripted in-place mutations a decorated function's body applies to its mutable argument
+MUTATIONS = {
+    "list": {
+        "app": lambda l: l.append("z"),          # extends the list (['a','b'] -> ['a','b','z'])
+        "sort": lambda l: l.sort(),              # normalises the order (['b','a'] -> ['a','b'])
+        "rev": lambda l: l.reverse(),
+        "pop": lambda l: l.pop() if l else None,
+        "ins": lambda l: l.insert(0, "a") if "a" not in l[:1] else None,
+    },
+    "dict": {
+        "sd": lambda d: d.setdefault("x", "1"),  # fills in a default ({'y':'2'} -> {'x':'1','y':'2'})
+        "dely": lambda d: d.pop("y", None),
+        "clr": lambda d: d.clear(),
+        "upd": lambda d: d.update(y="2"),
+    },
+}
+
+
+def mutations_for(value) -> list[str]:
+    if isinstance(value, list):
+        return list(MUTATIONS["list"])
+    if isinstance(value, dict):
+        return list(MUTATIONS["dict"])
+    return []
+
+
+def apply_mutation(name: str, obj):
+    if name in ("-", None):
+        return
+    kind = "list" if isinstance(obj, list) else "dict" if isinstance(obj, dict) else None
+    if kind is None or name not in MUTATIONS[kind]:
+        raise HarnessError(f"mutation {name!r} does not apply to {type(obj).__name__}")
+    MUTATIONS[kind][name](obj)
 
 
 def make_layout(name: str) -> Layout:
@@ -148,10 +221,23 @@ def make_layout(name: str) -> Layout:
         # malformed stream: tag `tx` is used but never registered (D21) - reported as a note, not judged
         return Layout(name, ["k:{i}"], {"i": ["0", "1", "2"]}, ["ta"],
                       regs=[("ta", "k:{i}")], funcs=[], patterns=["k:*"], extra_tags=["tx"])
+    if name == "mut":
+        # decorated functions with MUTABLE arguments (list / dict) in the key and tag templates, whose bodies may
+        # change them in place: key and tags are those of the arguments at call time.  The mutable field is the only
+        # field of its key template (a rendered list contains ':'; a second field would make the registry ambiguous).
+        return Layout(name, ["r:{cols}", "q:{opts}"],
+                      {"cols": [["a", "b"], ["b", "a"], ["a", "b", "z"], ["a"]],
+                       "opts": [{"y": "2"}, {"x": "1", "y": "2"}, {"x": "1"}]},
+                      ["cols:{cols}", "opts:{opts}", "all"],
+                      regs=[],
+                      funcs=[(0, ["cols:{cols}", "all"], ["cols"]), (0, ["cols:{cols}"], ["cols"]),
+                             (1, ["all", "opts:{opts}"], ["opts"])],
+                      patterns=["r:a*", "q:*", "r:*z", "r:*"])
     if name.startswith("big:"):
         n = int(name.split(":")[1])
         return Layout(name, ["b:{i}", "o:{i}"], {"i": [str(i) for i in range(n)]}, ["big", "odd"],
-                      regs=[("big", "b:{i}"), ("odd", "b:{i}"), ("odd", "o:{i}")], funcs=[], patterns=["b:1*", "o:*"])
+                      regs=[("big", "b:{i}"), ("odd", "b:{i}"), ("odd", "o:{i}")], funcs=[], patterns=["b:1*", "o:*"],
+                      exact=[0, 1, n - 1, n])
     raise HarnessError(f"unknown layout {name}")
 
 
@@ -214,8 +300,10 @@ class Runner:
         self.since = [[] for _ in range(n)]     # tags carried since the last explicit deletion
         self.ever = [set() for _ in range(n)]
         self.must_be_dead: dict[int, int] = {}  # key -> index of the deltags line that must have removed it
+        self.removed_by = [None] * n            # how the key was last explicitly deleted (statistics only)
         self.fresh = 100
         self.body_ran = False
+        self.next_mut = "-"
         self.registered = True                  # every tag used so far was registered for its key
         self.next_ttl = None
 
@@ -296,6 +384,16 @@ class Runner:
             async def fn(user):
                 runner.body_ran = True
                 return runner.body_val
+        elif argnames == ["cols"]:
+            async def fn(cols):
+                runner.body_ran = True
+                apply_mutation(runner.next_mut, cols)   # the body changes its (mutable) argument in place
+                return runner.body_val
+        elif argnames == ["opts"]:
+            async def fn(opts):
+                runner.body_ran = True
+                apply_mutation(runner.next_mut, opts)
+                return runner.body_val
         else:  # pragma: no cover
             raise HarnessError("unsupported signature")
         return cache(ttl=ttl_fn, key=key_tpl, tags=tuple(tag_tpls))(fn)
@@ -310,8 +408,9 @@ class Runner:
         if any(t not in exp for t in tags):
             self.registered = False
 
-    def _note_delete(self, ki: int):
+    def _note_delete(self, ki: int, how: str = "delete"):
         self.since[ki] = []
+        self.removed_by[ki] = how
 
     def _pre_write(self, ki: int, tags: list[int]):
         """snapshot (before a tagged write) of what the statistics need"""
@@ -403,21 +502,39 @@ class Runner:
             return line, f"n={r}"
         if op == "call":
             ki, fi, ttl = int(w[1]), int(w[2]), ttl_of(w[3])
+            mut = w[4] if len(w) > 4 else "-"
             self._touch_stats(ki)
+            # the tags of the entry are those of the call's arguments AT CALL TIME (rendered here, before the call)
             tags = lay.func_tags(fi, ki)
             self.fresh += 1
             self.body_val = f"t{self.fresh}"
             self.body_ran = False
             self.next_ttl = ttl
+            self.next_mut = mut
             snap = self._pre_write(ki, tags)
             fd = lay.keys[ki][2]
-            args = [fd[a] for a in lay.funcs[fi][2]]
-            r = await self.funcs[fi](*args)
+            argnames = lay.funcs[fi][2]
+            args = [copy.deepcopy(fd[a]) for a in argnames]     # fresh objects: the universe is never mutated
+            try:
+                r = await self.funcs[fi](*args)
+            finally:
+                self.next_mut = "-"
             mline = f"call {ki} t:{self.fresh} {w[3]} {show_tags(tags)}"
             if self.body_ran:
                 self._note_write(ki, tags)
                 self._post_write(snap, ttl)
                 self._bump("decorator_miss_tagged_write")
+                fd_after = dict(zip(argnames, args))
+                if any(isinstance(a, (list, dict)) for a in args):
+                    self._bump("decorator_miss_with_mutable_argument")
+                if fd_after != {a: fd[a] for a in argnames}:
+                    tags_after = [fmt(tt, fd_after) for tt in lay.funcs[fi][1]]
+                    if tags_after != [lay.tags[t] for t in tags]:
+                        self._bump("decorator_body_mutated_argument_of_tag_template")
+                        if any(t in lay.tags for t in tags_after if t not in [lay.tags[x] for x in tags]):
+                            self._bump("decorator_body_mutated_argument_into_another_live_tag")
+                    if fmt(lay.templates[lay.funcs[fi][0]], fd_after) != lay.keys[ki][0]:
+                        self._bump("decorator_body_mutated_argument_of_key_template")
             else:
                 self._bump("decorator_hit")
                 if ki in self.must_be_dead:
@@ -435,7 +552,7 @@ class Runner:
                 self._touch_stats(ki)
             r = await c.delete_many(*[lay.keys[ki][0] for ki in ks])
             for ki in ks:
-                self._note_delete(ki)
+                self._note_delete(ki, "delete_many")
             return line, ("U" if r is None else f"?{r!r}")
         if op == "delmatch":
             pi = int(w[1])
@@ -444,9 +561,21 @@ class Runner:
             for ki in ks:
                 if ki not in live and self._raw(ki) is not None and any(self._in_set(t, ki) for t in range(len(lay.tags))):
                     self._bump("delete_match_skips_expired_unpurged_member")
+            exact = "*" not in lay.patterns[pi]
+            members = [ki for ki in live if any(self._in_set(t, ki) for t in range(len(lay.tags)))]
+            if not ks:
+                self._bump("delete_match_pattern_matches_nothing")
+            if exact and members:
+                self._bump("delete_match_wildcard_free_removes_member")
+            if exact and ks and not live:
+                self._bump("delete_match_wildcard_free_on_absent_or_expired_key")
+            if not exact and len(members) == 1:
+                self._bump("delete_match_glob_removes_one_member")
+            if not exact and len(members) > 1:
+                self._bump("delete_match_glob_removes_several_members")
             r = await c.delete_match(lay.patterns[pi])
             for ki in live:
-                self._note_delete(ki)
+                self._note_delete(ki, "delete_match_exact" if exact else "delete_match_glob")
             return "delmatch " + " ".join(map(str, ks)), ("U" if r is None else f"?{r!r}")
         if op == "deltags":
             return await self._deltags(w, line)
@@ -487,6 +616,8 @@ class Runner:
         recreated = [k for k in stay if readable_before[k] and any(t in self.ever[k] for t in tl)]
         if recreated:
             self._bump("deltags_spares_key_recreated_without_tag")
+        for how in {self.removed_by[k] for k in recreated if self.removed_by[k]}:
+            self._bump("deltags_spares_key_recreated_after_" + how)
         if any(readable_before[k] and k in stay and self.last[k] for k in range(n)):
             self._bump("deltags_spares_key_with_other_tags")
         r = await self.cache.delete_tags(*[lay.tags[t] for t in tl])
@@ -506,7 +637,7 @@ class Runner:
                 self.notes.append(f"D21 (unregistered tag): `{line}` removed {lay.keys[k][0]!r}")
         for k in range(n):
             if before[k] is not None and self._raw(k) is None:
-                self._note_delete(k)     # removed by delete_tags = explicitly deleted
+                self._note_delete(k, "delete_tags")     # removed by delete_tags = explicitly deleted
         return line, out
 
     # ---- whole history
@@ -591,6 +722,158 @@ def gen_tags(rng, lay: Layout, ki: int, registered_only: bool) -> str:
     return show_tags([rng.choice(pool) for _ in range(n)] if rng.random() < 0.1 else rng.sample(pool, min(n, len(pool))))
 
 
+def gen_call(rng, lay: Layout, ki: int, fi: int, ttl: str) -> str:
+    """a decorated call; when the function has a mutable argument its body mutates it in place in about half of the calls"""
+    menu = []
+    for a in lay.funcs[fi][2]:
+        menu += mutations_for(lay.keys[ki][2][a])
+    if menu and rng.random() < 0.55:
+        return f"call {ki} {fi} {ttl} {rng.choice(menu)}"
+    return f"call {ki} {fi} {ttl}"
+
+
+def gen_pattern(rng, lay: Layout) -> int:
+    """glob patterns (matching one / several / no universe keys), wildcard-free patterns (one exact key), no match"""
+    x = rng.random()
+    if x < 0.5 or not lay.exact_of:
+        return rng.randrange(lay.nglob)
+    if x < 0.88:
+        return rng.choice(sorted(lay.exact_of.values()))
+    return rng.choice(lay.nomatch)
+
+
+def _noise(rng, lay: Layout, avoid_write: int, avoid_tags: list[int]) -> list[str]:
+    """0..2 commands that neither write key `avoid_write` nor delete the tags `avoid_tags`"""
+    nk = len(lay.keys)
+    out = []
+    for _ in range(rng.choice([0, 0, 1, 1, 2])):
+        c = rng.choice(["get", "exists", "adv", "adv0", "set_other", "delmatch_none", "deltags_other", "get"])
+        other = [k for k in range(nk) if k != avoid_write]
+        if c == "get":
+            out.append(f"get {rng.randrange(nk)}")
+        elif c == "exists":
+            out.append(f"exists {rng.randrange(nk)}")
+        elif c == "adv":
+            out.append(f"adv {rng.choice([1, 4, 8, 9])}")
+        elif c == "adv0":
+            out.append("adv 0")
+        elif c == "set_other" and other:
+            ko = rng.choice(other)
+            out.append(f"set {ko} {rng.choice(VALS)} {rng.choice(TTLS)} a {gen_tags(rng, lay, ko, True)}")
+        elif c == "delmatch_none":
+            out.append(f"delmatch {rng.choice(lay.nomatch)}")
+        elif c == "deltags_other":
+            ts = [t for t in range(len(lay.tags)) if t not in avoid_tags and t not in [lay.tags.index(x) for x in lay.extra_tags]]
+            if ts:
+                out.append(f"deltags {rng.choice(ts)}")
+    return out
+
+
+def gen_recreate(rng, lay: Layout) -> list[str]:
+    """directed at the second precision clause: a key carries tag t, is explicitly removed by ONE of the removal
+    paths (delete, delete_many, delete_match with a wildcard-free pattern naming it, delete_match with a glob,
+    delete_tags of another tag it carries), is written again without t, then delete_tags(t): every removal path has
+    to prune the key from its tag sets.  Other keys carry t too (they must go), noise in between."""
+    nk = len(lay.keys)
+    cands = [k for k in range(nk) if lay.expected_key_tags(k)]
+    ki = rng.choice(cands)
+    exp = lay.expected_key_tags(ki)
+    t = rng.choice(exp)
+    others = [x for x in exp if x != t]
+    carried = [t] + (rng.sample(others, rng.randint(0, len(others))) if others else [])
+    rng.shuffle(carried)
+    ops = []
+    # companions under the same tag
+    for ko in rng.sample([k for k in range(nk) if k != ki and t in lay.expected_key_tags(k)],
+                         min(rng.randint(0, 2), len([k for k in range(nk) if k != ki and t in lay.expected_key_tags(k)]))):
+        ops.append(f"set {ko} {rng.choice(VALS)} {rng.choice(['-', '800', '24'])} a {show_tags([t])}")
+    fs = [fi for fi in lay.funcs_for_key(ki) if t in lay.func_tags(fi, ki)]
+    ttl = rng.choice(["-", "-", "800", "24", "16"])
+    w = rng.random()
+    if fs and w < 0.35:
+        fi = rng.choice(fs)
+        carried = lay.func_tags(fi, ki)
+        ops.append(gen_call(rng, lay, ki, fi, ttl if ttl != "-" else "800"))
+    elif w < 0.5:
+        ops.append(f"incr {ki} 1 {ttl} {show_tags(carried)}")
+    else:
+        ops.append(f"set {ki} {rng.choice(VALS)} {ttl} a {show_tags(carried)}")
+    ops += _noise(rng, lay, ki, carried)
+    paths = ["delete", "delmany", "exact", "exact", "exact", "glob", "glob"]
+    if [x for x in carried if x != t]:
+        paths += ["deltags_other", "deltags_other"]
+    how = rng.choice(paths)
+    if how == "delete":
+        ops.append(f"delete {ki}")
+    elif how == "delmany":
+        ks = [ki] + [rng.randrange(nk) for _ in range(rng.randint(0, 2))]
+        rng.shuffle(ks)
+        ops.append("delmany " + " ".join(map(str, ks)))
+    elif how == "exact" and ki in lay.exact_of:
+        ops.append(f"delmatch {lay.exact_of[ki]}")
+    elif how == "glob" and lay.wild_patterns_for(ki):
+        ops.append(f"delmatch {rng.choice(lay.wild_patterns_for(ki))}")
+    elif how == "deltags_other":
+        ops.append(f"deltags {rng.choice([x for x in carried if x != t])}")
+    else:
+        ops.append(f"delete {ki}")
+    ops += _noise(rng, lay, ki, [t])
+    # written again without t
+    new_tags = [x for x in exp if x != t]
+    nt = rng.sample(new_tags, rng.randint(0, len(new_tags))) if new_tags and rng.random() < 0.4 else []
+    w = rng.random()
+    fs2 = [fi for fi in lay.funcs_for_key(ki) if t not in lay.func_tags(fi, ki)]
+    if fs2 and w < 0.25:
+        ops.append(gen_call(rng, lay, ki, rng.choice(fs2), "800"))
+    elif w < 0.4:
+        ops.append(f"incr {ki} {rng.choice([1, 2])} {rng.choice(['-', '800'])} {show_tags(nt)}")
+    elif w < 0.5:
+        ops.append(f"set {ki} {rng.choice(VALS)} {rng.choice(['-', '800'])} nx {show_tags(nt)}")
+    else:
+        ops.append(f"set {ki} {rng.choice(VALS)} {rng.choice(['-', '800', '24'])} a {show_tags(nt)}")
+    ops += _noise(rng, lay, ki, [t])
+    ops.append(f"deltags {t}")
+    order = list(range(nk))
+    rng.shuffle(order)
+    ops += [f"{rng.choice(['get', 'get', 'exists'])} {k}" for k in order]
+    return ops
+
+
+def gen_mutcall(rng, lay: Layout) -> list[str]:
+    """directed at tags attached by a decorator whose function changes its arguments: a few decorated calls (bodies
+    mutating their list / dict argument in place, and non-mutating controls), maybe hits and noise, then
+    delete_tags of a tag rendered from some call's arguments as the caller passed them, then probes (get and a
+    further call: a removed entry has to be recomputed)."""
+    nk = len(lay.keys)
+    ops = []
+    called = []
+    for _ in range(rng.randint(1, 3)):
+        ki = rng.randrange(nk)
+        fs = lay.funcs_for_key(ki)
+        if not fs:
+            continue
+        fi = rng.choice(fs)
+        ops.append(gen_call(rng, lay, ki, fi, rng.choice(["800", "800", "24", "16"])))
+        called.append((ki, fi))
+        if rng.random() < 0.3:
+            ops.append(gen_call(rng, lay, ki, rng.choice(fs), "800"))      # usually a hit
+        ops += _noise(rng, lay, ki, list(range(len(lay.tags))))
+    if not called:
+        return gen_history(rng, lay, 10)
+    ki, fi = rng.choice(called)
+    tags = lay.func_tags(fi, ki)
+    templated = [t for t, tt in zip(tags, lay.funcs[fi][1]) if "{" in tt]
+    t = rng.choice(templated) if templated and rng.random() < 0.8 else rng.choice(tags)
+    ops.append(f"deltags {t}")
+    order = list(range(nk))
+    rng.shuffle(order)
+    ops += [f"get {k}" for k in order]
+    if rng.random() < 0.6:
+        ops.append(gen_call(rng, lay, ki, fi, "800"))
+        ops.append(f"get {ki}")
+    return ops
+
+
 def gen_history(rng, lay: Layout, maxlen: int, registered_only: bool = True) -> list[str]:
     n = rng.randint(2, maxlen)
     nk = len(lay.keys)
@@ -616,7 +899,7 @@ def gen_history(rng, lay: Layout, maxlen: int, registered_only: bool = True) -> 
             fs = lay.funcs_for_key(ki)
             if not fs:
                 continue
-            ops.append(f"call {ki} {rng.choice(fs)} {rng.choice(['8', '16', '24', '800', '800'])}")
+            ops.append(gen_call(rng, lay, ki, rng.choice(fs), rng.choice(['8', '16', '24', '800', '800'])))
         elif op == "get":
             ops.append(f"get {k()}")
         elif op == "exists":
@@ -626,7 +909,7 @@ def gen_history(rng, lay: Layout, maxlen: int, registered_only: bool = True) -> 
         elif op == "delmany":
             ops.append("delmany " + " ".join(str(k()) for _ in range(rng.randint(1, 3))))
         elif op == "delmatch":
-            ops.append(f"delmatch {rng.randrange(len(lay.patterns))}")
+            ops.append(f"delmatch {gen_pattern(rng, lay)}")
         elif op == "adv":
             ops.append(f"adv {rng.choice(ADVS)}")
         else:
